@@ -153,7 +153,7 @@ def _gen_pipeline(rng):
     for _ in range(n):
         kind = rng.choice(KINDS)
         seq = rng.choice([0xFFFFFFFF, 0xFFFFFFFE, 5, 6]) if kind != "wsh-miniscript" else rng.choice([5, 6, 0xFFFFFFFE])
-        inputs.append((kind, [rng.randrange(1, 120) for _ in range(3)], rng.choice([0, 1]), rng.choice([0, 1, 7, 2**31 - 1]), seq))
+        inputs.append((kind, rng.sample(range(1, 120), 3), rng.choice([0, 1]), rng.choice([0, 1, 7, 2**31 - 1]), seq))
     return dict(inputs=inputs, hash_type=rng.choice([0, 1, 1, 2, 3, 0x81, 0x82, 0x83]), lock_time=rng.choice([0, 500000]),
                 tamper=rng.choice(["amount-out", "sequence", "lock-time", "spent-amount", "script-out"]), signers_used=rng.choice(["all", "quorum", "leaves"]),
                 version=rng.choice([0, 0, 2]))
